@@ -883,3 +883,32 @@ pub fn f_partition<'a>(a: S<'a, u32>) {
 // build: "`partition` must have at least 2 output(s), actually has 1" (DFIR flat graph
 // diagnostics, hydro_lang/src/compile/built.rs:62) -- a well-typed safe program that the code
 // generator rejects (reported for C41).
+
+// ------------------------------------------------------------------ round 7: network links (two locations)
+
+pub struct NSender {}
+pub struct NReceiver {}
+pub struct NSrc {}
+
+/// one-to-one ordered link: sender program (map, unique) -> TCP bincode -> receiver program (enumerate)
+pub fn n_o2o<'a>(receiver: &Process<'a, NReceiver>, a: Stream<u32, Process<'a, NSender>>) {
+    a.map(q!(|x| x * 2 + 1))
+        .unique()
+        .send(receiver, TCP.fail_stop().bincode().name("link"))
+        .enumerate()
+        .embedded_output("out");
+}
+
+/// many-to-one: every cluster member sends its (mapped) stream; the receiver folds per sender
+pub fn n_m2o<'a>(receiver: &Process<'a, NReceiver>, a: Stream<u32, Cluster<'a, NSrc>>) {
+    let tick = receiver.tick();
+    a.map(q!(|x| x * 2 + 1))
+        .send(receiver, TCP.fail_stop().bincode().name("mlink"))
+        .fold(q!(|| 1u32), q!(|acc, v| *acc = (*acc * 2 + v) % 1009))
+        .snapshot(&tick, nondet!(/** observation only */))
+        .entries()
+        .all_ticks()
+        .map(q!(|(m, v)| (m.get_raw_id(), v)))
+        .assume_ordering::<TotalOrder>(nondet!(/** observation only */))
+        .embedded_output("out");
+}
